@@ -26,6 +26,12 @@ ASCII alphanumerics through unchanged.
 `Outcome.needMore`: `s` is only the text received *so far* (`atEof = false`) and it ends before the
 standard's "next input character" is available at a point where the standard looks at it. With
 `atEof = true` the end of `s` is the end of the stream (the standard's EOF "character").
+`needMore` is kept simple rather than minimal: for named references it is the answer as long as the
+whole text seen is an initial segment of some identifier — also for a complete identifier ending
+in `;` such as `amp;`, although no identifier continues after a `;`. This does no harm: an outcome
+`resolved …` is the outcome of every extension of the text and of the complete stream
+(`C14_spec_decision_final` in `Props/C14Run.lean`), and with `atEof = true` there is always an
+outcome (`C14_spec_total_at_eof`).
 -/
 namespace H5V.Spec.CharRef
 
@@ -164,14 +170,9 @@ def numericEnd (v : Nat) : Nat × Bool :=
   else if v = 0x0D || (isControl v && !isAsciiWhitespace v) then (c1 v, true)
   else (v, false)
 
-/-- §13.2.5.75–79: `t` is the text after `&#`. -/
-def specNumeric (t : Str) (atEof : Bool) : Outcome :=
-  /- §13.2.5.75 "U+0078 (x), U+0058 (X): Append the current input character to the temporary
-     buffer. Switch to the hexadecimal character reference start state. Anything else: Reconsume
-     in the decimal character reference start state." -/
-  let hex : Bool := t.head? == some 'x' || t.head? == some 'X'
-  let base := if hex then 16 else 10
-  let u := if hex then t.tail else t
+/-- §13.2.5.76–79: the digits. `u` is the text after `&#` (`base = 10`, `lead = 1`) resp. after
+`&#x` / `&#X` (`base = 16`, `lead = 2`); `lead` counts the characters between `&` and `u`. -/
+def specDigits (base lead : Nat) (u : Str) (atEof : Bool) : Outcome :=
   -- §13.2.5.78–79: every ASCII (hex) digit is accumulated
   let ds := u.takeWhile (fun c => (digitVal base c).isSome)
   let after := u.drop ds.length
@@ -183,12 +184,20 @@ def specNumeric (t : Str) (atEof : Bool) : Outcome :=
   else
     let v := digitsValue base (ds.filterMap (digitVal base))
     let r := numericEnd v
-    let lead := if hex then 2 else 1      -- `#` and the `x`/`X`
     /- "U+003B SEMICOLON: Switch to the numeric character reference end state. Anything else: This
        is a missing-semicolon-after-character-reference parse error. Reconsume in the numeric
        character reference end state." -/
     if after.head? == some ';' then .resolved [Char.ofNat r.1] (lead + ds.length + 1) r.2
     else .resolved [Char.ofNat r.1] (lead + ds.length) true
+
+/-- §13.2.5.75 Numeric character reference state: `t` is the text after `&#`.
+"U+0078 (x), U+0058 (X): Append the current input character to the temporary buffer. Switch to the
+hexadecimal character reference start state. Anything else: Reconsume in the decimal character
+reference start state." (With nothing after `&#` yet, the digit rule answers `needMore`, resp. at
+EOF "absence of digits".) -/
+def specNumeric (t : Str) (atEof : Bool) : Outcome :=
+  if t.head? == some 'x' || t.head? == some 'X' then specDigits 16 2 t.tail atEof
+  else specDigits 10 1 t atEof
 
 /-- §13.2.5.72 Character reference state. `s` is the text after the `&`. -/
 def specCharRef (inAttr : Bool) (s : Str) (atEof : Bool) : Outcome :=
